@@ -122,12 +122,12 @@ Qed.
 Lemma flat_dt : forall (dt : bool) name, flat_map flat_tok (if dt then [KDoctype name] else []) = [].
 Proof. destruct dt; reflexivity. Qed.
 
-Lemma run_iso : forall n evs pt lt st0 st es dt,
-  Inv pt lt st es -> ind_guard pt lt evs = true ->
-  iso_ins lt (flat_map flat_tok (run_events None evs (st0, es, dt)))
-             (flat_map flat_tok (run_events (Some n) evs (st, es, dt))).
+Lemma run_iso : forall fx n evs pt lt st0 st es dt,
+  Inv pt lt st es -> ind_guard fx pt lt evs = true ->
+  iso_ins lt (flat_map flat_tok (run_events fx None evs (st0, es, dt)))
+             (flat_map flat_tok (run_events fx (Some n) evs (st, es, dt))).
 Proof.
-  intros n evs. induction evs as [|e r IH]; intros pt lt st0 st es dt HI HG.
+  intros fx n evs. induction evs as [|e r IH]; intros pt lt st0 st es dt HI HG.
   - cbn [run_events]. rewrite indent_none. cbn [flat_map].
     destruct (indent_W n (set_snl true st) lt) as [HW | [Hlt [w [HW Hw]]]].
     + intros L. left. destruct HI as [_ HI]. destruct (HI L) as [P _]. exact P.
@@ -179,9 +179,11 @@ Proof.
         change (flat_tok (KCdata (c :: t'))) with [PT (c :: t')]. cbn [app].
         apply ii_keep. cbn [is_text]. eapply IH; [|exact HG].
         split.
-        -- intros L. destruct HI as [HI _]. destruct (HI L) as [Q Mk].
-           rewrite (pte_marked st es Mk) in E1. inversion E1; subst. split; auto.
-        -- intros _. split; auto.
+        -- intros L. destruct fx.
+           ++ split; auto.
+           ++ rewrite orb_false_r in L. destruct HI as [HI _]. destruct (HI L) as [Q Mk].
+              rewrite (pte_marked st es Mk) in E1. inversion E1; subst. split; auto.
+        -- intros _. destruct fx; split; auto.
     + (* comment *)
       cbn [ind_guard] in HG.
       destruct (pte_shape st es) as [p [st1 [es1 [E1 [Fp [M1 U]]]]]].
@@ -211,12 +213,25 @@ Qed.
 Lemma Inv0 : forall st es, Inv false false st es.
 Proof. split; discriminate. Qed.
 
-Theorem indent_adds_only_ws_guarded : forall n evs dt,
-  ind_guard false false evs = true ->
-  ws_ins (tparse (run_events None evs (ist0, [], dt))) (tparse (run_events (Some n) evs (ist0, [], dt))) /\
-  no_adjacent_text (tparse (run_events (Some n) evs (ist0, [], dt))) = true.
+Lemma ind_guard_repaired : forall evs pt lt, (lt = true -> pt = true) -> ind_guard true pt lt evs = true.
 Proof.
-  intros n evs dt G. split.
+  induction evs as [|e r IH]; intros pt lt H; cbn [ind_guard]; auto.
+  destruct e as [name attrs | name | t | t | t | t d].
+  - apply andb_true_iff. split; [|apply IH; discriminate].
+    destruct lt; auto. rewrite (H eq_refl). reflexivity.
+  - apply IH; discriminate.
+  - destruct t; apply IH; auto.
+  - destruct t; [apply IH; auto|]. apply IH. intros _. apply orb_true_r.
+  - apply IH; discriminate.
+  - apply IH; discriminate.
+Qed.
+
+Theorem indent_adds_only_ws_guarded : forall fx n evs dt,
+  ind_guard fx false false evs = true ->
+  ws_ins (tparse (run_events fx None evs (ist0, [], dt))) (tparse (run_events fx (Some n) evs (ist0, [], dt))) /\
+  no_adjacent_text (tparse (run_events fx (Some n) evs (ist0, [], dt))) = true.
+Proof.
+  intros fx n evs dt G. split.
   - unfold tparse. apply coalesce_iso. eapply run_iso; [apply Inv0 | exact G].
   - apply coalesce_no_adjacent.
 Qed.
@@ -234,10 +249,10 @@ Qed.
 Lemma pte_nows : forall st es, filter not_ws (fst (fst (pte st es))) = fst (fst (pte st es)).
 Proof. intros st es. destruct es as [|[|] r]; reflexivity. Qed.
 
-Lemma run_strip : forall ind evs st0 st es dt,
-  filter not_ws (run_events ind evs (st, es, dt)) = run_events None evs (st0, es, dt).
+Lemma run_strip : forall fx ind evs st0 st es dt,
+  filter not_ws (run_events fx ind evs (st, es, dt)) = run_events fx None evs (st0, es, dt).
 Proof.
-  intros ind evs. induction evs as [|e r IH]; intros st0 st es dt.
+  intros fx ind evs. induction evs as [|e r IH]; intros st0 st es dt.
   - cbn [run_events]. rewrite indent_toks_filter. reflexivity.
   - destruct e as [name attrs | name | t | t | t | t d]; cbn [run_events step];
       try (destruct t; [apply IH|]); destruct es as [|[|] es1]; destruct dt; cbn [pte];
@@ -250,14 +265,14 @@ Definition cdata_witness : list event :=
   [EStart [97] []; ECdata [120]; EStart [98] []; EEnd [98]; EEnd [97]].
 
 Lemma cdata_witness_parse :
-  tparse (run_events None cdata_witness (ist0, [], false)) = [PS [97] []; PT [120]; PS [98] []; PE [98]; PE [97]] /\
-  tparse (run_events (Some 2) cdata_witness (ist0, [], false)) =
+  tparse (run_events false None cdata_witness (ist0, [], false)) = [PS [97] []; PT [120]; PS [98] []; PE [98]; PE [97]] /\
+  tparse (run_events false (Some 2) cdata_witness (ist0, [], false)) =
     [PS [97] []; PT [120; 10; 32; 32]; PS [98] []; PE [98]; PT [10]; PE [97]; PT [10]].
 Proof. split; vm_compute; reflexivity. Qed.
 
 Lemma cdata_witness_not_ws_ins :
-  ~ ws_ins (tparse (run_events None cdata_witness (ist0, [], false)))
-           (tparse (run_events (Some 2) cdata_witness (ist0, [], false))).
+  ~ ws_ins (tparse (run_events false None cdata_witness (ist0, [], false)))
+           (tparse (run_events false (Some 2) cdata_witness (ist0, [], false))).
 Proof.
   destruct cdata_witness_parse as [A B]. rewrite A, B. intros H.
   inversion H; subst. clear H.
